@@ -21,7 +21,10 @@ CLAIMED['C05'] = dict(
          "TLC-generated ragged table x key form (single, compound, None) is replayed on the real sort() under every "
          "buffersize None,1..n+1 x reverse x cache x 2 passes x value profiles and on mergesort vs sort(cat); "
          "Hypothesis tables up to 40 rows with random strategies are recorded as pass events and validated by TLC "
-         "(SortTrace) against the same definition.",
+         "(SortTrace) against the same definition. Also: ShortlistMerge.tla (the merge used by mergesort and the reverse "
+         "chunk merge) model-checked for 3 inputs; mergesort over different / wider-union / permuted headers; petl's own DEBUG "
+         "log of SortView's internal steps validated event by event against ExtSort's actions (ExtSortLog); composition "
+         "laws A1/A7 of Algebra.tla replayed on composed pipelines.",
     note="Small-scope bound (<= 5 rows in the algorithm model, <= 4 ragged rows in generated cases, <= 40 rows in "
          "validated traces); CPython list.sort stability and heapq.merge trusted; sqlite/IO not involved.",
     technique="TLA+ transcription of the external sort checked by TLC against a stable-sort definition; "
@@ -125,7 +128,9 @@ CLAIMED['C01'] = dict(
          "and randomtable/dummytable. Every 2-iterator schedule and sampled 3-iterator schedules generated by TLC are "
          "replayed on 20 stateful views (all schedules), 14 extract views and 140 catalogue views, each next() compared "
          "with the solo pass, survivors drained, then a fresh pass; random longer schedules (<= 4 iterators) are recorded "
-         "and validated by TLC (IteratorsTrace, which drives Iterators' own actions).",
+         "and validated by TLC (IteratorsTrace, which drives Iterators' own actions). The labelled state graph of every "
+         "implementation-shaped model is dumped and an edge cover extracted: every transition of the model is driven "
+         "through the real view (cache, sort memory/file with leading and non-leading keys, fromdicts(generator), randomtable).",
     note="CPython single thread; tee* excluded as stated; optional-dependency views not installed. dummytable's interleaving "
          "dependence on the global random generator is a recorded open finding (known_findings.json F6b).",
     technique="TLA+ iterator-protocol spec + implementation-shaped shared-state models checked by TLC over all interleavings; "
@@ -273,7 +278,8 @@ CLAIMED['C15'] = dict(
          "non-ASCII, astral, empty, edge spaces), 5 encodings, 6 delimiter/quotechar/quoting settings and 4 source kinds (path, "
          ".gz, .bz2, MemorySource); after every operation the target is read back with the matching from* and compared with the "
          "store the spec prescribes; to + append is compared byte-wise with to(cat). Buffer-level traces from a recording source "
-         "are validated by FileStoreTrace, which drives FileStore's own actions.",
+         "are validated by FileStoreTrace, which drives FileStore's own actions. Sources.tla (how a source argument resolves "
+         "to a source class: protocol handlers, codecs by extension, objects) is replayed on the real resolver.",
     note="Character-level encode/decode fidelity is sampled by the replay, not decided by TLC; QUOTE_NONE without escapechar and "
          "QUOTE_NONNUMERIC with numeric cells are outside the stated domain. Two open findings are recorded (BOM-writing "
          "encodings on compressed targets: known_findings.json F11a, F11b).",
